@@ -345,7 +345,13 @@ let on_proc (idx : int) (msg : message) (obs : string) : unit =
                 (match msg with
                  | Syn (_, dg) | SynAck (dg, _) ->
                      check "C14" (c14_delta_ok dg o.snap.nodes x)
-                       "a node delta of the reply does not start where the sender's reset decision says (0 iff the peer's watermark and max version are both below the sender's watermark, else the peer's max version)"
+                       "a node delta of the reply does not start where the sender's reset decision says (0 iff the peer's watermark and max version are both below the sender's watermark, else the peer's max version)";
+                     (* the budget the reply's delta was computed under *)
+                     let mtu = match r with
+                       | SynAck (dgb, _) -> N.sub p_MAX_UDP (N.add p_RESERVE_SYNACK (digest_len dgb))
+                       | _ -> N.sub p_MAX_UDP p_RESERVE_ACK in
+                     check "C14" (c14_offer_ok o.snap.nodes dg o.snap.sched mtu x)
+                       "the sender is ahead of the peer's digest on a member it does not quarantine and there is room for that member's header and first operation, but the reply's delta is empty"
                  | _ -> ())
             | None -> ())
        | None -> ());
@@ -483,7 +489,9 @@ let on_delta ?dg (idx : int) (mtu : int) (sched : id list) (obs : string) : unit
         (match dg with
          | Some dg ->
              check "C14" (c14_delta_ok dg s.nodes x)
-               "a computed node delta does not start where the sender's reset decision says"
+               "a computed node delta does not start where the sender's reset decision says";
+             check "C14" (c14_offer_ok s.nodes dg sched (n_of_int mtu) x)
+               "the sender is ahead of the digest on a member it does not quarantine and there is room for that member's header and first operation, but the computed delta is empty"
          | None -> ())
     | _ -> ()
   end
